@@ -177,6 +177,7 @@ def _named_conditions(modules, known) -> int:
                     if_.test = _R().visit(if_.test)
                     block.remove(asg)
                     count += 1
+    count += _pure_named_expressions(modules, known)
     if count:
         for m in modules.values():
             ast.fix_missing_locations(m.tree)
@@ -184,6 +185,125 @@ def _named_conditions(modules, known) -> int:
 
             set_parents(m.tree)
     return count
+
+
+def _is_pure_condition(e) -> bool:
+    """an expression without side effects whose value only depends on the names it reads: comparisons, boolean operators, `not`, names, attribute reads,
+    constants, `any` / `all` / `len` / `isinstance` over generator expressions of such"""
+    if isinstance(e, (ast.Constant, ast.Name)):
+        return True
+    if isinstance(e, ast.Attribute):
+        return _is_pure_condition(e.value)
+    if isinstance(e, ast.UnaryOp) and isinstance(e.op, ast.Not):
+        return _is_pure_condition(e.operand)
+    if isinstance(e, ast.BoolOp):
+        return all(_is_pure_condition(v) for v in e.values)
+    if isinstance(e, ast.Compare):
+        return _is_pure_condition(e.left) and all(_is_pure_condition(c) for c in e.comparators)
+    if isinstance(e, ast.Call) and isinstance(e.func, ast.Name) and e.func.id in ("any", "all", "len", "bool") and len(e.args) == 1 and not e.keywords:
+        a = e.args[0]
+        if isinstance(a, (ast.GeneratorExp, ast.ListComp)):
+            return _is_pure_condition(a.elt) and all(_is_pure_condition(g.iter) and all(_is_pure_condition(i) for i in g.ifs) for g in a.generators)
+        return _is_pure_condition(a)
+    return False
+
+
+def _pure_named_expressions(modules, known) -> int:
+    """N3b: a local the reference function does not have, bound ONCE to a pure boolean condition (a comparison / boolean combination / any() / all() over names
+    and attributes) and read only in tests (of `if` statements, boolean operands, other such bindings) that follow the binding in the same block or below it,
+    with nothing the condition reads re-bound after the binding: every read is replaced by the condition (`path_is_new = rec is None` ... `if path_is_new or ...`)"""
+    count = 0
+    for m in modules.values():
+        for qual, fn in _functions(m.tree):
+            kn = known.get(f"{m.name}::{qual}")
+            stored = _stored_locals(fn)
+            # also names the reference function has: there they are flags bound several times; bound ONCE to a pure condition they are a name for it
+            new_locals = stored
+            if not new_locals:
+                continue
+            params = {a.arg for a in fn.args.posonlyargs + fn.args.args + fn.args.kwonlyargs}
+            changed = True
+            rounds = 0
+            while changed and rounds < 4:
+                changed = False
+                rounds += 1
+                own = list(_own_nodes(fn))
+                for name in sorted(new_locals - params):
+                    binds = [n for n in own if isinstance(n, ast.Assign) and len(n.targets) == 1 and isinstance(n.targets[0], ast.Name) and n.targets[0].id == name]
+                    stores = [n for n in own if isinstance(n, ast.Name) and n.id == name and isinstance(n.ctx, (ast.Store, ast.Del))]
+                    if len(binds) != 1 or len(stores) != 1:
+                        continue
+                    b = binds[0]
+                    val = b.value
+                    if not isinstance(val, (ast.Compare, ast.BoolOp, ast.UnaryOp, ast.Call)) or not _is_pure_condition(val):
+                        continue
+                    loads = [n for n in own if isinstance(n, ast.Name) and n.id == name and isinstance(n.ctx, ast.Load)]
+                    if not loads or any(n.lineno < b.lineno or (n.lineno == b.lineno) for n in loads):
+                        continue
+                    if any(isinstance(d, (ast.FunctionDef, ast.AsyncFunctionDef, ast.Lambda)) and any(isinstance(x, ast.Name) and x.id == name for x in ast.walk(d)) for d in ast.walk(fn) if d is not fn):
+                        continue
+                    free = {x.id for x in ast.walk(val) if isinstance(x, ast.Name)}
+                    # nothing the condition reads is re-bound after the binding (generator variables of the condition itself excluded)
+                    own_gen = {x.id for g_ in ast.walk(val) if isinstance(g_, ast.comprehension) for x in ast.walk(g_.target) if isinstance(x, ast.Name)}
+                    later_stores = [n for n in own if isinstance(n, ast.Name) and isinstance(n.ctx, (ast.Store, ast.Del)) and n.id in (free - own_gen) and n.lineno > b.lineno]
+                    if later_stores:
+                        continue
+                    # reads only inside tests / boolean expressions / other pure bindings
+                    def _in_condition(n):
+                        x = n
+                        while True:
+                            par = getattr(x, "_parent", None)
+                            if par is None:
+                                return False
+                            if isinstance(par, ast.If) and par.test is x:
+                                return True
+                            if isinstance(par, ast.IfExp) and par.test is x:
+                                return True
+                            if isinstance(par, ast.Assign) and par.value is x and _is_pure_condition(par.value):
+                                return True
+                            if isinstance(par, (ast.BoolOp, ast.UnaryOp, ast.Compare)):
+                                x = par
+                                continue
+                            return False
+
+                    from .model import set_parents
+
+                    set_parents(fn)
+                    if not all(_in_condition(n) for n in loads):
+                        continue
+                    import copy as _copy
+
+                    class _R(ast.NodeTransformer):
+                        def visit_Name(self, node):
+                            if node.id == name and isinstance(node.ctx, ast.Load):
+                                return ast.copy_location(_copy.deepcopy(val), node)
+                            return node
+
+                    for blk in _blocks(fn.body):
+                        for i, st in enumerate(blk):
+                            if st is b:
+                                continue
+                            blk[i] = _R().visit(st)
+                    for blk in _blocks(fn.body):
+                        if b in blk:
+                            blk.remove(b)
+                    count += 1
+                    changed = True
+                    break
+    return count
+
+
+def _blocks(stmts):
+    yield stmts
+    for st in stmts:
+        if isinstance(st, (ast.FunctionDef, ast.AsyncFunctionDef, ast.ClassDef)):
+            continue
+        for fld in ("body", "orelse", "finalbody"):
+            sub = getattr(st, fld, None)
+            if isinstance(sub, list) and sub and isinstance(sub[0], ast.stmt):
+                yield from _blocks(sub)
+        for h in getattr(st, "handlers", []) or []:
+            yield from _blocks(h.body)
 
 
 # ---------------------------------------------------------------------------------------------------------------- N1
